@@ -1,3 +1,234 @@
-import Gossamer.Model.C05
+/-
+C05 — storage read proofs are complete and sound: theorems about the model
+(`Gossamer.Model.C05`: `generate`, `verify`).  Core Lean only.
+
+`H` (BLAKE2b-256 in the code) is a parameter with 32-byte digests.  Collision resistance is not
+assumed: each theorem concludes "… or a collision is exhibited", where the collision is between an
+item SUPPLIED by the prover and a DIFFERENT node encoding or stored value of the state
+(`CollisionWith`).  (A bare `∃ a ≠ b, H a = H b` is true of every hash with fixed-size digests and
+would make the statements vacuous.)
+-/
+import Gossamer.Lib.TrieProofSound
+import Gossamer.Lib.TrieRefine
 namespace Gossamer.C05
+open Gossamer Gossamer.TrieCodec Gossamer.Bridge Gossamer.Trie
+
+/-! ### sizes: tries that represent maps with keys of at most 32767 bytes and values below 1 GiB -/
+
+/-- keys short enough for the partial-key length field (the Go encoder panics beyond 65535
+    nibbles), values shorter than 2^30 bytes -/
+def SizesOK (es : Entries) : Prop := ∀ e ∈ es, e.1.length ≤ 32767 ∧ e.2.length < 1073741824
+
+theorem wft_of_bnd : ∀ t : Trie, Canon t →
+    (∀ k v, lookup t k = some v → k.length ≤ 65535 ∧ v.length < 1073741824) → WFT t := by
+  intro t
+  induction t with
+  | nil => intro _ _; trivial
+  | leaf pk v =>
+    intro _ hb
+    exact hb pk v (by simp)
+  | branch pk v cs ih =>
+    intro hc hb
+    obtain ⟨hcs, hshape⟩ := hc
+    have hchild : ∃ i, cs i ≠ nil := by
+      rcases hshape with ⟨i, _, _, hi, _⟩ | ⟨_, i, hi⟩
+      · exact ⟨i, hi⟩
+      · exact ⟨i, hi⟩
+    obtain ⟨i, hi⟩ := hchild
+    obtain ⟨k, x, hk⟩ := canon_has_key (cs i) (hcs i) hi
+    have h1 := (hb (pk ++ i :: k) x (by rw [lookup_branch_child]; exact hk)).1
+    refine ⟨by simp at h1; omega, ?_, ?_⟩
+    · intro y hy
+      exact (hb pk y (by rw [lookup_branch_self]; exact hy)).2
+    · intro j
+      refine ih j (hcs j) ?_
+      intro k' v' hk'
+      have := hb (pk ++ j :: k') v' (by rw [lookup_branch_child]; exact hk')
+      refine ⟨?_, this.2⟩
+      have := this.1
+      simp at this; omega
+
+theorem wft_of_rep {t : Trie} {es : Entries} (h : Rep t es) (hs : SizesOK es) : WFT t := by
+  apply wft_of_bnd t h.canon
+  intro k v hk
+  rw [← get_entriesN, h.entries] at hk
+  have hmem := OMap.get_some_mem hk
+  simp only [OMap.mapK, List.mem_map] at hmem
+  obtain ⟨e, he, heq⟩ := hmem
+  cases heq
+  have := hs e he
+  rw [length_toNibs]
+  exact ⟨by omega, this.2⟩
+
+/-! ### soundness -/
+
+/-- **Soundness (trie level, every input).**  Whatever proof items are supplied (omitted,
+    duplicated, foreign, altered nodes), if `Verify` accepts the non-empty value `value` for `key`
+    under the root hash of the state trie `t`, then `Get(key)` on `t` returns exactly `value` — or
+    one of the supplied items collides under `H` with a different node encoding or stored value
+    of `t`. -/
+theorem C05_sound (ver : Ver) (H : Bytes → Bytes) (hH : ∀ m, (H m).length = 32) (strict : Bool)
+    (nodes : List Bytes) (t : Trie) (hw : WFT t) (key value : Bytes) (hv : value ≠ [])
+    (h : verify H strict nodes (hashTrie ver H t) key value = .ok) :
+    Trie.get t key = some value ∨ CollisionWith ver H (· ∈ nodes) t := by
+  rcases injOn_or_collision ver H (· ∈ nodes) t with hinj | hc
+  · left
+    obtain ⟨pv, hget, hval⟩ := verify_sound_inj ver H hH strict nodes t hw hinj key value h
+    rcases hval with hval | hval
+    · exact absurd hval hv
+    · rw [Trie.get, Gossamer.keyLEToNibbles_eq, hget, hval]
+  · exact .inr hc
+
+/-- FULL STATEMENT (false for the code, see `C05_sound_map_counterexample`):
+    `Rep t es → verify … (specRoot ver H es) key value = ok → value ≠ [] →
+       OMap.get key es = some value ∨ CollisionWith …`.
+    **Soundness against the map the state represents**, proved outside the region of the
+    `len(key) == 0` short cut of `retrieveFromBranch` (finding `empty-remaining-key` of C02, which
+    `Verify` inherits through `Get`): a verified pair is an entry of the state. -/
+theorem C05_sound_map_partial (ver : Ver) (H : Bytes → Bytes) (hH : ∀ m, (H m).length = 32)
+    (strict : Bool) (nodes : List Bytes) {t : Trie} {es : Entries} (hr : Rep t es) (hs : SizesOK es)
+    (key value : Bytes) (hv : value ≠ [])
+    (hk : emptyKeyHit t (toNibs key) = false)
+    (h : verify H strict nodes (specRoot ver H es) key value = .ok) :
+    OMap.get key es = some value ∨ CollisionWith ver H (· ∈ nodes) t := by
+  have hroot : specRoot ver H es = hashTrie ver H t := by rw [specRoot, ← hr.eq_build]
+  rw [hroot] at h
+  rcases C05_sound ver H hH strict nodes t (wft_of_rep hr hs) key value hv h with hg | hc
+  · left; rw [← hr.get key hk]; exact hg
+  · exact .inr hc
+
+/-- **No proof for an absent key.**  If `key` is not in the state (and outside the short-cut region)
+    no set of proof items makes `Verify` accept a non-empty value for it, short of a collision. -/
+theorem C05_absent (ver : Ver) (H : Bytes → Bytes) (hH : ∀ m, (H m).length = 32)
+    (strict : Bool) (nodes : List Bytes) {t : Trie} {es : Entries} (hr : Rep t es) (hs : SizesOK es)
+    (key value : Bytes) (hv : value ≠ []) (hk : emptyKeyHit t (toNibs key) = false)
+    (habs : OMap.get key es = none) :
+    verify H strict nodes (specRoot ver H es) key value ≠ .ok ∨ CollisionWith ver H (· ∈ nodes) t := by
+  by_cases h : verify H strict nodes (specRoot ver H es) key value = .ok
+  · rcases C05_sound_map_partial ver H hH strict nodes hr hs key value hv hk h with hg | hc
+    · rw [habs] at hg; cases hg
+    · exact .inr hc
+  · exact .inl h
+
+/-- a present key is never in the short-cut region: a WRONG non-empty value for a PRESENT key is
+    never accepted -/
+theorem C05_wrong_value (ver : Ver) (H : Bytes → Bytes) (hH : ∀ m, (H m).length = 32)
+    (strict : Bool) (nodes : List Bytes) {t : Trie} {es : Entries} (hr : Rep t es) (hs : SizesOK es)
+    (key value v : Bytes) (hv : value ≠ []) (hpres : OMap.get key es = some v) (hne : value ≠ v) :
+    verify H strict nodes (specRoot ver H es) key value ≠ .ok ∨ CollisionWith ver H (· ∈ nodes) t := by
+  by_cases h : verify H strict nodes (specRoot ver H es) key value = .ok
+  · rcases C05_sound_map_partial ver H hH strict nodes hr hs key value hv (hr.safe_of_present hpres) h
+      with hg | hc
+    · rw [hpres] at hg; cases hg; exact absurd rfl hne
+    · exact .inr hc
+  · exact .inl h
+
+/-! ### the excluded regions are real: counterexamples on a concrete hash
+
+`H0` pads or truncates to 32 bytes: a "hash" with 32-byte digests on which everything below is
+decidable.  The honest strings of a trie are enumerated by `honestList`, so the absence of a relevant
+collision is checked by computation too. -/
+
+def H0 (b : Bytes) : Bytes := (b ++ List.replicate 32 0).take 32
+
+theorem H0_len (m : Bytes) : (H0 m).length = 32 := by
+  simp [H0]
+
+def honestList (ver : Ver) (H : Bytes → Bytes) : Trie → List Bytes
+  | .nil => [encodeNode ver H .nil]
+  | .leaf pk v => [encodeNode ver H (.leaf pk v), v]
+  | .branch pk v cs =>
+    encodeNode ver H (.branch pk v cs) ::
+      (v.toList ++ (List.finRange 16).flatMap fun i => honestList ver H (cs i))
+
+theorem honest_mem (ver : Ver) (H : Bytes → Bytes) :
+    ∀ (t : Trie) (b : Bytes), Honest ver H t b → b ∈ honestList ver H t := by
+  intro t
+  induction t with
+  | nil => intro b h; simp only [Honest] at h; simp [honestList, h]
+  | leaf pk v => intro b h; simp only [Honest] at h; simpa [honestList] using h
+  | branch pk v cs ih =>
+    intro b h
+    simp only [Honest] at h
+    simp only [honestList, List.mem_cons, List.mem_append, List.mem_flatMap, List.mem_finRange, true_and]
+    rcases h with h | h | ⟨i, h⟩
+    · exact .inl h
+    · exact .inr (.inl (by simp [h]))
+    · exact .inr (.inr ⟨i, ih i b h⟩)
+
+/-- no supplied item collides with an honest string, checked on the finite lists -/
+theorem no_collision_of_lists {ver : Ver} {H : Bytes → Bytes} {nodes : List Bytes} {t : Trie}
+    (h : ∀ a ∈ nodes, ∀ b ∈ honestList ver H t, a ≠ b → H a ≠ H b) :
+    ¬ CollisionWith ver H (· ∈ nodes) t := by
+  rintro ⟨a, b, ha, hb, hne, hh⟩
+  exact h a ha b (honest_mem ver H t b hb) hne hh
+
+/-- the state `1234 ↦ aa, 123456 ↦ cc, 1f ↦ dd`: the key `12` ends on arrival at the branch of `1234` -/
+def cexTrie : Trie :=
+  Trie.put (Trie.put (Trie.put Trie.nil [0x12, 0x34] [0xaa]) [0x12, 0x34, 0x56] [0xcc]) [0x1f] [0xdd]
+def cexMap : Entries :=
+  OMap.upsert [0x1f] [0xdd] (OMap.upsert [0x12, 0x34, 0x56] [0xcc] (OMap.upsert [0x12, 0x34] [0xaa] []))
+
+theorem cex_rep : Rep cexTrie cexMap := ((Rep.empty.put _ _).put _ _).put _ _
+
+theorem cex_sizes : SizesOK cexMap := by
+  have hm : cexMap = [([0x12, 0x34], [0xaa]), ([0x12, 0x34, 0x56], [0xcc]), ([0x1f], [0xdd])] := by decide
+  intro e he
+  rw [hm] at he
+  simp only [List.mem_cons, List.not_mem_nil, or_false] at he
+  rcases he with rfl | rfl | rfl <;> decide
+
+/-- the honest proof of key `1234`: the root alone (every other node is inlined) -/
+def cexProof : List Bytes := [encodeNode Ver.v0 H0 cexTrie]
+
+/-- **Inside the short-cut region the map-level statement fails**: under the root of the state
+    `{1234 ↦ aa, 123456 ↦ cc, 1f ↦ dd}` the honest proof of `1234` makes `Verify` confirm
+    `(12, aa)`, a key that is not in the state, and no collision is involved. -/
+theorem C05_sound_map_counterexample :
+    ∃ (ver : Ver) (H : Bytes → Bytes) (strict : Bool) (nodes : List Bytes) (t : Trie) (es : Entries)
+      (key value : Bytes),
+      (∀ m, (H m).length = 32) ∧ Rep t es ∧ SizesOK es ∧ value ≠ [] ∧
+      verify H strict nodes (specRoot ver H es) key value = .ok ∧
+      ¬ (OMap.get key es = some value ∨ CollisionWith ver H (· ∈ nodes) t) := by
+  refine ⟨Ver.v0, H0, false, cexProof, cexTrie, cexMap, [0x12], [0xaa], H0_len, cex_rep, cex_sizes,
+    by decide, ?_, ?_⟩
+  · have hroot : specRoot Ver.v0 H0 cexMap = hashTrie Ver.v0 H0 cexTrie := by
+      rw [specRoot, ← cex_rep.eq_build]
+    rw [hroot]
+    decide
+  · rintro (h | h)
+    · revert h; decide
+    · exact no_collision_of_lists (by decide) h
+
+/-- the state `01 ↦ 02` -/
+def cexTrie1 : Trie := Trie.put Trie.nil [0x01] [0x02]
+
+/-- **The hypothesis `value ≠ []` of `C05_sound` is needed**: an EMPTY claimed value is accepted for
+    a present key whatever its value (the `len(value) > 0` guard of `Verify`; finding `empty-claim`). -/
+theorem C05_empty_claim_counterexample :
+    ∃ (ver : Ver) (H : Bytes → Bytes) (strict : Bool) (nodes : List Bytes) (t : Trie) (key : Bytes),
+      (∀ m, (H m).length = 32) ∧ WFT t ∧
+      verify H strict nodes (hashTrie ver H t) key [] = .ok ∧
+      ¬ (Trie.get t key = some [] ∨ CollisionWith ver H (· ∈ nodes) t) := by
+  have hw : WFT cexTrie1 := by
+    have hr : Rep cexTrie1 (OMap.upsert [0x01] [0x02] []) := Rep.empty.put _ _
+    refine wft_of_rep hr ?_
+    have hm : OMap.upsert ([0x01] : Bytes) [0x02] [] = [([0x01], [0x02])] := by decide
+    intro e he
+    rw [hm] at he
+    simp only [List.mem_cons, List.not_mem_nil, or_false] at he
+    subst he; decide
+  refine ⟨Ver.v0, H0, false, [encodeNode Ver.v0 H0 cexTrie1], cexTrie1, [0x01], H0_len, hw,
+    by decide, ?_⟩
+  rintro (h | h)
+  · revert h; decide
+  · exact no_collision_of_lists (by decide) h
+
+/-- **`Generate` has no proof of absence**: for a key that is not in the state it returns
+    `ErrKeyNotFound` (finding `generate-absent`). -/
+theorem C05_generate_absent_counterexample :
+    ∃ (ver : Ver) (H : Bytes → Bytes) (t : Trie) (key : Bytes),
+      Trie.get t key = none ∧ generate ver H t [key] = none :=
+  ⟨Ver.v0, H0, cexTrie1, [0x03], by decide, by decide⟩
+
 end Gossamer.C05
